@@ -313,3 +313,20 @@ def keygen_total(ctx):
               'get_latest_right_sk does not map every requested right to exactly one result (%s): rights can be silently dropped from '
               'a generated key' % ([c.name for c in bad] or 'no single map'), 'rs.map(..) only', gb.where())
     check_flag_readers(ctx, F)
+
+
+@rule('C03', 'restrict-prefix')
+def restrict_prefix(ctx):
+    """'hierarchy order is preserved' for the keys generated after an edit: the lower ranks of a hierarchy are selected by
+    position in the ordered dictionary, not by identifier (identifiers reflect creation time, not rank, as soon as an attribute
+    is inserted below the top) (C02.restrict-prefix)."""
+    from .c02 import check_restrict_prefix
+    check_restrict_prefix(ctx, ctx.F)
+
+
+@rule('C03', 'edits-atomic')
+def edits_atomic(ctx):
+    """A refused edit of the access structure (duplicate dimension / attribute, unknown name) changes nothing: no write to the
+    structure can be followed by an error exit (C10.atomic restricted to the access-structure code)."""
+    from . import c10
+    c10.atomic(ctx, only=r'^abe_policy::')
